@@ -117,6 +117,18 @@ def events_for_case(a, cid, gam, K, ids):
                 order = np.argsort(np.arange(len(labels)) % 2, kind="stable")
                 labels, sc_all = labels[order], sc_all[order]
             s = Scores.from_labels(labels, sc_all, pos_label=1, **kw)
+        elif cid % 5 == 2 and pos.dtype == np.float64 and len(pos) and len(neg):
+            # both classes handed over as memoryview slices of ONE buffer, overlapping where the end of the
+            # positives equals the beginning of the negatives; the caller's buffer must stay as it is
+            pl, nl = pos.tolist(), neg.tolist()
+            k_ = max(j for j in range(min(len(pl), len(nl)) + 1) if pl[len(pl) - j:] == nl[:j])
+            buf = np.array(pl + nl[k_:], dtype=float)
+            keep_ = buf.copy()
+            mv = memoryview(buf)
+            e["via"] = f"memoryview(overlap={k_})"
+            s = Scores(mv[: len(pl)], mv[len(buf) - len(nl):], **kw)
+            if not np.array_equal(buf, keep_):
+                raise AssertionError("the constructor modified the caller's buffer")
         else:
             s = Scores(pos, neg, **kw)
         e["post"] = alpha_obj(s, inv)
@@ -209,6 +221,19 @@ def events_for_case(a, cid, gam, K, ids):
         e["exc"] = f"{type(ex).__name__}: {ex}"[:200]
         return evs
     q_cm(2, s2)
+    if cid % 3 == 0:
+        # a copy (shallow / deep / through pickle, every protocol) of the first object answers like it
+        import copy
+        import pickle
+        how = ["copy", "deepcopy", "pickle"][(cid // 3) % 3]
+        e = ev("Copy", h=1, h2=5, how=how, post={"pos": [], "neg": [], "ep": 0, "en": 0, "sc": "pos", "ec": "pos"})
+        try:
+            s5 = copy.copy(s) if how == "copy" else copy.deepcopy(s) if how == "deepcopy" else \
+                pickle.loads(pickle.dumps(s, protocol=(cid // 9) % (pickle.HIGHEST_PROTOCOL + 1)))
+            e["post"] = alpha_obj(s5, inv)
+            q_cm(5, s5)
+        except Exception as ex:  # noqa
+            e["exc"] = f"{type(ex).__name__}: {ex}"[:200]
     return evs
 
 
